@@ -11,13 +11,10 @@ CFG = {
     "theorems": [
         "Swat4.C13.facts_ok",
         "Swat4.C13.outcome_table",
-        "Swat4.C13.transient_never_delists",
         "Swat4.C13.retry_keeps_listing",
         "Swat4.C13.final_failure_marks",
         "Swat4.C13.success_marks",
         "Swat4.C13.update_applies_to_latest",
-        "Swat4.C13.budget",
-        "Swat4.C13.expFloor_values",
         "Swat4.C13.expFloor_matches_go",
         "Swat4.C13.expFloor_brackets_exp",
         "Swat4.C13.probe_retry_run",
@@ -29,9 +26,6 @@ CFG = {
         "Swat4.C13.probe_success_race",
         "Swat4.C13.probe_retry_race_removed",
         "Swat4.C13.keepalive_survives_probe_retry",
-        "Swat4.C13.handleSuccess_fields",
-        "Swat4.C13.handleRetry_only_status",
-        "Swat4.C13.handleFailure_only_status",
         "Swat4.C13.aba_overwrites_fresh_registration",
         "Swat4.C13.aba_witness",
         "Swat4.C13.renew_conflict_refreshes_latest",
@@ -81,6 +75,16 @@ CFG = {
         "Swat4.C13.usecases_enqueue_within_budget",
         "Swat4.C13.queued_within_budget",
     ],
+    # proved in the Lean files and used by other proofs, but NOT audited as property theorems: each is a
+    # read-back of a definition, glue between two names, true by type, or a corollary of an audited theorem
+    "supporting": [
+        {"name": "Swat4.C13.transient_never_delists", "why": "read-back of the definition (`retryStatus` by `rfl` per goal; the property statement is retry_keeps_listing / outcome_table)"},
+        {"name": "Swat4.C13.budget", "why": "read-back of the definition (`probeRetry` unfolded under `retries ≥ maxRetries`; the property statements are usecases_enqueue_within_budget / queued_within_budget)"},
+        {"name": "Swat4.C13.expFloor_values", "why": "read-back of the definition (six rows of the literal table `expFloor`; the ties to Go and to e^n are expFloor_matches_go / expFloor_brackets_exp)"},
+        {"name": "Swat4.C13.handleSuccess_fields", "why": "read-back of the definition (projections of `handleSuccess`, `rfl` each)"},
+        {"name": "Swat4.C13.handleRetry_only_status", "why": "read-back of the definition (`rfl`)"},
+        {"name": "Swat4.C13.handleFailure_only_status", "why": "read-back of the definition (`rfl`)"},
+    ],
     "shards": (1, 16),
     "nontrivial": _nontrivial,
     "rule": "(a) the complete 512 x 2 x 3 table: real detailsprober/portprober HandleSuccess/HandleRetry/HandleFailure on every status word, "
@@ -121,13 +125,13 @@ CFG = {
         "the initial status word and initial queue are taken from the model's run of the init items",
     ],
     "manifest": {
-        "text": "Lean theorems: outcome_table (all 512 x 2 x 3 cases by kernel evaluation against a per-bit declarative spec), transient_never_delists, "
+        "text": "Lean theorems: outcome_table (all 512 x 2 x 3 cases by kernel evaluation against a per-bit declarative spec), retry_keeps_listing, "
                 "update_applies_to_latest (Update(f stale, resolver f) stores f(latest) at version+1 whenever versions are monotone) and its three "
                 "instances for retry / final failure / success; run-level, as equations on the whole result state of the executed use case: "
                 "probe_retry_run / probe_failure_run / probe_success_run / probe_missing_run (sequential run) and probe_*_race (Get, one arbitrary "
                 "committed call of another client, rest of the run): stored record = the outcome's transformation of the LATEST record one version up, "
                 "queue = old queue plus exactly the same probe with retries+1 ready at now + floor(e^(retries+1)) s without expiry (retry only), "
-                "nothing else changed; handleSuccess_fields / handleRetry_only_status / handleFailure_only_status (field level); budget (retries = max: "
+                "nothing else changed; usecases_enqueue_within_budget / queued_within_budget (retries = max: "
                 "no re-queue, failure transformation); expFloor_matches_go (table = Go's math.Exp expression, regenerated fact) and expFloor_brackets_exp "
                 "(= floor of the real e^n, n <= 5); the conflict callbacks of the other use cases on the same history (renew_conflict_refreshes_latest, "
                 "report_conflict_applies_to_latest, discover_conflict_refuses_when_marked / _marks_latest); aba_overwrites_fresh_registration: across "
